@@ -25,7 +25,7 @@ from __future__ import annotations
 import logging
 
 from explorerscript.ssb_converting.ssb_data_types import SsbOperation
-from explorerscript.ssb_converting.ssb_special_ops import SsbLabel, SsbLabelJump, OP_JUMP
+from explorerscript.ssb_converting.ssb_special_ops import SsbLabel, SsbLabelJump, OP_JUMP, OPS_CTX
 
 logger = logging.getLogger(__name__)
 
@@ -51,7 +51,12 @@ class LabelFinalizer:
                     new_r.append(op)
                 else:
                     op_was_removed = False
-                    if isinstance(op, SsbLabelJump) and op.root.op_code.name == OP_JUMP:
+                    if (
+                        isinstance(op, SsbLabelJump)
+                        and op.root.op_code.name == OP_JUMP
+                        # The op after a context op (with-block) belongs to it, it can not be taken away.
+                        and not (op_i > 0 and r[op_i - 1].op_code.name in OPS_CTX)
+                    ):
                         # Remove any regular jumps that just jump to a label right after
                         for label in self._labels_after(r, op_i):
                             if op.label == label:
